@@ -59,6 +59,7 @@ type Params struct {
 	PreDeleteP   float64 // a standalone file is removed by hand before a lifetime
 	PreCorruptP  float64 // a snapshot file is damaged (storage fault) before a lifetime
 	PreEditP     float64 // a snapshot file gets a harmless hand edit (extra blank lines) before a lifetime
+	PreLinkP     float64 // a snapshot file becomes a symbolic link to the same content kept elsewhere
 	TrimpathP    float64 // some lifetimes run the -trimpath build (experiments only, 0 in every preset: DESIGN.md 13.11)
 	ExtraLifeP   float64 // a further edited run with another environment before the closing replay
 	NonTestNames bool
@@ -135,6 +136,29 @@ func (b *builder) genConfigs() {
 				// same option function to both WithConfig calls) ...
 				prev := *b.cfgs[len(b.cfgs)-1].JSON
 				c.JSON = &prev
+				if r.Bool(0.5) {
+					// ... or one that differs from it in exactly one field (whatever is remembered per
+					// layout must be remembered under all of it)
+					switch r.Intn(3) {
+					case 0:
+						prev.SortKeys = !prev.SortKeys
+					case 1:
+						prev.Width = []int{0, 20, 80, 0}[func() int {
+							for i, w := range []int{0, 20, 80} {
+								if w == prev.Width {
+									return i + 1
+								}
+							}
+							return 0
+						}()]
+					default:
+						if prev.Indent == " " {
+							prev.Indent = "  "
+						} else {
+							prev.Indent = " "
+						}
+					}
+				}
 			}
 			if r.Bool(0.3) {
 				// ... and sometimes a second JSON option that overrides it
@@ -920,6 +944,9 @@ func World(seed uint64, index int, p *Params) *check.World {
 	}
 	if r.Bool(p.PreEditP) {
 		l2.PreEdit = 1 + r.Intn(500)
+	}
+	if p.PreLinkP > 0 && r.Bool(p.PreLinkP) {
+		l2.PreLink = 1 + r.Intn(500)
 	}
 	w.Lifetimes = append(w.Lifetimes, l2)
 	if r.Bool(p.ExtraLifeP) {
